@@ -13,6 +13,7 @@ import TracingModel.Core.RegistryDriver
 import TracingModel.Core.SpanDriver
 import TracingModel.Core.DirectiveDriver
 import TracingModel.Core.FilteringDriver
+import TracingModel.Core.LookupDriver
 import TracingModel.Core.NotifyDriver
 import TracingModel.Core.ReloadDriver
 import TracingModel.Core.RegRaceDriver
@@ -67,6 +68,8 @@ def dispatch (prop mode : String) : Option (List String → String) :=
   | "C07", "model" => some FilteringDriver.model
   | "C07", "spec" => some FilteringDriver.spec
   | "C07", "modelchain" => some FilteringDriver.modelChain
+  | "C07", "modellookup" => some LookupDriver.model
+  | "C07", "speclookup" => some LookupDriver.spec
   | "C09", "model" => some NotifyDriver.model
   | "C09", "spec" => some NotifyDriver.spec
   | "C09", "modelfilt" => some FilteringDriver.model
